@@ -4,6 +4,7 @@ mod client;
 mod common;
 mod holder;
 mod queue;
+mod sink;
 mod writer;
 
 fn main() {
@@ -25,6 +26,8 @@ fn main() {
         "holder-probe" => holder::probe(&args),
         "holder-replay" => holder::replay(&args),
         "holder-stress" => holder::stress(&args),
+        "sink-drive" => sink::drive(&args),
+        "sink-conc" => sink::conc(&args),
         "queue-stress" => queue::stress(&args),
         "queue-replay" => queue::replay(&args),
         other => {
